@@ -271,6 +271,20 @@ def loop_rules(body, sig):
     # R13: std sort/dedup on a Vec<u32> local -> assumed-contract helpers
     b = rule_sub("R13.sort_unstable->assumed-contract", r"\b(\w+)\.sort_unstable\(\);", lambda m: f"vpv_sort_unstable(&mut {m.group(1)});", b)
     b = rule_sub("R13.dedup->assumed-contract", r"\b(\w+)\.dedup\(\);", lambda m: f"vpv_dedup(&mut {m.group(1)});", b)
+    # R14: `(COND).then(|| EXPR)` is by definition `if COND { Some(EXPR) } else { None }`
+    while True:
+        m = re.search(r"\((?P<c>[^()]*(?:\([^()]*\)[^()]*)*)\)\s*\.then\(\s*\|\|\s*", b)
+        if not m:
+            break
+        j, d = m.end(), 1
+        k = j
+        while k < len(b) and d:
+            if b[k] in "([{": d += 1
+            elif b[k] in ")]}": d -= 1
+            k += 1
+        expr = b[j:k - 1].strip().rstrip(",").strip()
+        b = b[:m.start()] + f"if {m.group('c')} {{ Some({expr}) }} else {{ None }}" + b[k:]
+        hit("R14.bool-then->if")
     def r11(m):
         pv, s_ = m.group(1), m.group(2)
         if re.search(r"\b" + re.escape(s_) + r"\s*:\s*&\[", sig):
